@@ -1,17 +1,19 @@
 (** C17 — Stream-based socket layers are independent of how TCP segments the bytes.
-    Statements only; every proof is [exact <lemma>] from coq/Stream/*Proofs.v (non-vacuity examples and
-    refutation witnesses are closed by [vm_compute]).
+    Statements only; every proof is [exact <lemma>] from coq/Stream/*Proofs.v (examples are closed by [vm_compute]).
+    The models follow the repaired code (fix commits 509c336 4b5b4ef a4cf846 bc18d98 b519949 9934485 fcd7bcb);
+    the refutation witnesses of the seven defects those commits removed are kept below as regression
+    examples: the same inputs now give the intended result.
 
     Vocabulary (coq/Stream/StreamBase.v): [run body w cs] delivers the chunks [cs] as successive readable
     events to the layer whose one call of recv_messages is the program [body]; [feed body w s] is one
     readable event delivering [s]; [vis vis_msg] / [vis vis_str] project an event trace to what the layers
     above and below observe (upward messages resp. upward byte stream, downward sends, Fault/livelock);
-    [weq] compares final states (liveness + layer state); [clean] = no strict handshake read came up
-    short and no known-defective path was taken. *)
+    [weq] compares final states (liveness + layer state). *)
 From Coq Require Import ZArith List Bool.
 From Nice Require Import Stream.StreamBase Stream.StreamProofs
   Stream.TurnTcpModel Stream.TurnTcpProofs Stream.TcpQueueModel Stream.TcpQueueProofs
-  Stream.PsslModel Stream.PsslProofs Stream.Socks5Model Stream.Socks5Proofs Stream.HttpModel Stream.HttpProofs Stream.HttpSegProofs.
+  Stream.PsslModel Stream.PsslProofs Stream.Socks5Model Stream.Socks5Proofs Stream.HttpModel Stream.HttpProofs
+  Stream.HttpSegProofs Stream.HttpSmallProofs.
 Import ListNotations.
 Local Open Scope Z_scope.
 
@@ -36,22 +38,20 @@ Theorem C17_feed_app_turn : forall s a b, twf s ->
   vis vis_msg (snd (feed turn_body (alive s) (a ++ b))).
 Proof. exact turn_feed_app. Qed.
 
-(** no buffer index out of range and no spinning, for every stream and chunking in which no decoded frame
-    header announces more than the 65536-byte recv_buf holds ... *)
-Theorem C17_no_fault_turn_except_oversize : forall compat cs,
-  Forall hdr_fits (snd (run turn_body (alive (turn_init compat)) cs)) ->
+(** no buffer index out of range and no spinning, for every stream and every chunking: recv_buf (65556 bytes)
+    holds the largest frame a header can announce *)
+Theorem C17_no_fault_turn : forall compat cs,
   ~ In EFault (snd (run turn_body (alive (turn_init compat)) cs)) /\
   ~ In ELive (snd (run turn_body (alive (turn_init compat)) cs)).
-Proof. exact turn_no_fault_except_oversize. Qed.
+Proof. exact turn_no_fault. Qed.
 
-(** ... and that exclusion is needed: a STUN-looking header announcing 65535 bytes makes the layer write past
-    recv_buf (unchanged code; reproduced with ASan, see notes/C17.md) *)
-Theorem C17_no_fault_turn_refuted : exists compat cs,
-  In EFault (snd (run turn_body (alive (turn_init compat)) cs)).
-Proof.
-  exists RFC5766, [[0; 1; 255; 255] ++ repZ 7 65533].
-  vm_compute. auto 10.
-Qed.
+(** regression (4b5b4ef): the STUN-looking header announcing 65535 bytes that used to write past recv_buf
+    is now received whole *)
+Example C17_turn_oversize_regression :
+  let r := run turn_body (alive (turn_init RFC5766)) [[0; 1; 255; 255] ++ repZ 7 65533; repZ 7 23] in
+  negb (existsb (fun e => match e with EFault => true | _ => false end) (snd r)) = true /\
+  map (fun o => match o with OMsg m z => lenZ m | _ => -1 end) (vis vis_msg (snd r)) = [65556].
+Proof. vm_compute. split; reflexivity. Qed.
 
 (** tunnel transparency in Google mode: whatever message the layer frames on the send side comes out, after any
     segmentation of those bytes, as exactly that message on the receive side *)
@@ -63,21 +63,24 @@ Proof. exact turn_roundtrip_google. Qed.
 (** ... and in the RFC 5766 / draft-9 modes, where the layer adds only padding: a STUN message or ChannelData frame
     whose own length field is consistent ([rfc_consistent]) is delivered whole, with its padding *)
 Theorem C17_tunnel_transparent_turn_rfc5766 : forall c bufs cs, is_rfc c = true ->
-  rfc_consistent (concat bufs) -> lenZ (turn_frame c bufs) <= 65536 -> concat cs = turn_frame c bufs ->
+  rfc_consistent (concat bufs) -> concat cs = turn_frame c bufs ->
   vis vis_msg (snd (run turn_body (alive (turn_init c)) cs)) = [OMsg (turn_frame c bufs) (-1)].
 Proof. exact turn_roundtrip_rfc. Qed.
+
+Example C17_turn_nonvacuous :
+  vis vis_msg (snd (run turn_body (alive (turn_init GOOGLE)) [[0]; [3; 7]; [8; 9; 0; 1]; [5]])) =
+  [OMsg [7; 8; 9] (-1); OMsg [5] (-1)].
+Proof. vm_compute. reflexivity. Qed.
 
 (** * (5) the TCP send queue *)
 
 (** for every operation sequence and every script of kernel accept counts (0..len per write) and EWOULDBLOCK:
     bytes handed to the kernel ++ bytes still queued = concatenation of the accepted frames, in order
-    (so the kernel stream is a prefix of that concatenation and a frame is queued whole or not at all),
-    as long as no partial write hits the offset defect characterised by [offbug] *)
-Theorem C17_write_atomic_except_offset_bug : forall G ops sc s' tr,
+    (so the kernel stream is a prefix of that concatenation and a frame is queued whole or not at all) *)
+Theorem C17_write_atomic : forall G ops sc s' tr,
   softs sc = true -> q_run G {| queue := []; script := sc |} ops = (s', tr) ->
-  (forall r, In r tr -> no_trigger (snd r)) ->
   kernel_all tr ++ concat (queue s') = accepted_all tr.
-Proof. intros G ops sc s' tr S R NT. exact (run_inv G ops {| queue := []; script := sc |} s' tr S R NT). Qed.
+Proof. intros G ops sc s' tr S R. exact (run_inv G ops {| queue := []; script := sc |} s' tr S R). Qed.
 
 (** a frame that was not accepted (send returned 0 or -1) left no byte anywhere *)
 Theorem C17_write_refused_whole : forall G s rel bufs s1 e,
@@ -85,125 +88,92 @@ Theorem C17_write_refused_whole : forall G s rel bufs s1 e,
   queue s1 = queue s /\ kernel_of e = [] \/ concat bufs = [].
 Proof. exact refused_untouched. Qed.
 
-(** the offset defect: buffers [2][10][10], 9 bytes accepted; the kernel finally gets 17 18 19 24..29 and four
-    uninitialised bytes (G = 170) instead of 17..29 *)
-Theorem C17_write_atomic_refuted : exists G ops sc,
-  softs sc = true /\
-  let '(s', tr) := q_run G {| queue := []; script := sc |} ops in
-  kernel_all tr ++ concat (queue s') <> accepted_all tr.
-Proof.
-  exists 170, [QSend true [[0; 1]; [2; 3; 4; 5; 6; 7; 8; 9; 10; 11]; [12; 13; 14; 15; 16; 17; 18; 19; 20; 21]]; QDrain],
-         [KAcc 9].
-  vm_compute. split; [reflexivity | discriminate].
-Qed.
+(** regression (509c336): buffers [2][10][10], 9 bytes accepted — the kernel now gets 0..21 in order *)
+Example C17_write_atomic_offset_regression :
+  let '(s', tr) := q_run 170 {| queue := []; script := [KAcc 9] |}
+      [QSend true [[0; 1]; [2; 3; 4; 5; 6; 7; 8; 9; 10; 11]; [12; 13; 14; 15; 16; 17; 18; 19; 20; 21]]; QDrain] in
+  kernel_all tr = [0; 1; 2; 3; 4; 5; 6; 7; 8; 9; 10; 11; 12; 13; 14; 15; 16; 17; 18; 19; 20; 21] /\ queue s' = [].
+Proof. vm_compute. split; reflexivity. Qed.
 
-(** non-vacuity: the hypotheses of the queue theorem are met by runs with partial writes *)
 Example C17_write_atomic_nonvacuous :
   let '(s', tr) := q_run 170 {| queue := []; script := [KAcc 3; KWould; KAcc 1] |}
                      [QSend true [[1; 2]; [3; 4; 5]]; QSend true [[6]]; QWritable; QWritable; QDrain] in
-  (forall r, In r tr -> no_trigger (snd r)) /\ kernel_all tr = [1; 2; 3; 4; 5; 6] /\ queue s' = [].
-Proof.
-  vm_compute. split; [|split; reflexivity].
-  intros r H bufs off I.
-  repeat (destruct H as [H|H]; [subst r; simpl in I; repeat (destruct I as [I|I]; [try discriminate I | ]); try contradiction|]);
-    try contradiction.
-  inversion I; subst. reflexivity.
-Qed.
-
-Example C17_turn_nonvacuous :
-  vis vis_msg (snd (run turn_body (alive (turn_init GOOGLE)) [[0]; [3; 7]; [8; 9; 0; 1]; [5]])) =
-  [OMsg [7; 8; 9] (-1); OMsg [5] (-1)].
-Proof. vm_compute. reflexivity. Qed.
+  kernel_all tr = [1; 2; 3; 4; 5; 6] /\ queue s' = [].
+Proof. vm_compute. split; reflexivity. Qed.
 
 (** * (3) pseudo-SSL *)
 
-(** [clean] of a run = every read of a fixed-size handshake unit obtained all the bytes it asked for
-    (and no known-defective path was taken) *)
-Definition no_short_handshake_read (tr : list ev) : Prop := clean tr = true.
-
-(** segmentation independence holds for every chunking in which the server hello arrives in one read ... *)
-Theorem C17_seg_independent_pssl_except_split_hello : forall G compat cs,
+(** segmentation independence for every stream and every chunking (the server hello is collected across reads) *)
+Theorem C17_seg_independent_pssl : forall compat cs,
   let w0 := alive (pssl_init compat) in
-  no_short_handshake_read (snd (run (pssl_body G) w0 cs)) ->
-  weq (fst (run (pssl_body G) w0 cs)) (fst (feed (pssl_body G) w0 (concat cs))) /\
-  vis vis_str (snd (run (pssl_body G) w0 cs)) = vis vis_str (snd (feed (pssl_body G) w0 (concat cs))).
-Proof. intros G compat cs. apply pssl_seg_independent_except. unfold pinv, pssl_init; simpl; discriminate. Qed.
+  weq (fst (run pssl_body w0 cs)) (fst (feed pssl_body w0 (concat cs))) /\
+  vis vis_str (snd (run pssl_body w0 cs)) = vis vis_str (snd (feed pssl_body w0 (concat cs))).
+Proof. intros compat cs. apply pssl_seg_independent. apply pinv_init. Qed.
 
-(** ... and fails otherwise: the Google server hello cut after 10 bytes kills the connection (unchanged code) *)
-Theorem C17_seg_independent_pssl_refuted : exists G compat cs,
-  vis vis_str (snd (run (pssl_body G) (alive (pssl_init compat)) cs)) <>
-  vis vis_str (snd (feed (pssl_body G) (alive (pssl_init compat)) (concat cs))).
-Proof.
-  exists 190, PS_GOOGLE, [takeZ 10 SSL_SERVER_GOOGLE; dropZ 10 SSL_SERVER_GOOGLE; [1; 2]].
-  vm_compute. discriminate.
-Qed.
+(** regression (fcd7bcb): the Google server hello cut after 10 bytes no longer kills the connection *)
+Example C17_pssl_split_hello_regression :
+  vis vis_str (snd (run pssl_body (alive (pssl_init PS_GOOGLE)) [takeZ 10 SSL_SERVER_GOOGLE; dropZ 10 SSL_SERVER_GOOGLE; [1; 2]])) =
+  [OByte 1; OByte 2].
+Proof. vm_compute. reflexivity. Qed.
 
-Theorem C17_tunnel_transparent_pssl : forall G s cs rel bufs, p_hs s = true -> p_base s = true ->
-  fst (run (pssl_body G) (alive s) cs) = alive s /\
-  vis vis_str (snd (run (pssl_body G) (alive s) cs)) = map OByte (concat cs) /\
+Theorem C17_tunnel_transparent_pssl : forall s cs rel bufs, p_hs s = true -> p_base s = true ->
+  fst (run pssl_body (alive s) cs) = alive s /\
+  vis vis_str (snd (run pssl_body (alive s) cs)) = map OByte (concat cs) /\
   pssl_send s rel bufs = (s, [Dn (concat bufs); Snd 1]).
 Proof.
-  intros G s cs rel bufs H B. destruct (pssl_tunnel_transparent G s cs H B). repeat split; auto.
+  intros s cs rel bufs H B. destruct (pssl_tunnel_transparent s cs H B). repeat split; auto.
   exact (pssl_send_transparent s rel bufs H B).
 Qed.
 
-Theorem C17_no_fault_pssl : forall G compat cs,
-  ~ In EFault (snd (run (pssl_body G) (alive (pssl_init compat)) cs)) /\
-  ~ In ELive (snd (run (pssl_body G) (alive (pssl_init compat)) cs)).
-Proof. intros G compat cs. apply pssl_no_fault. unfold pinv, pssl_init; simpl; discriminate. Qed.
+Theorem C17_no_fault_pssl : forall compat cs,
+  ~ In EFault (snd (run pssl_body (alive (pssl_init compat)) cs)) /\
+  ~ In ELive (snd (run pssl_body (alive (pssl_init compat)) cs)).
+Proof. intros compat cs. apply pssl_no_fault. apply pinv_init. Qed.
 
 Example C17_pssl_nonvacuous :
-  no_short_handshake_read (snd (run (pssl_body 190) (alive (pssl_init PS_GOOGLE)) [SSL_SERVER_GOOGLE ++ [7]; [8; 9]])) /\
-  vis vis_str (snd (run (pssl_body 190) (alive (pssl_init PS_GOOGLE)) [SSL_SERVER_GOOGLE ++ [7]; [8; 9]])) =
+  vis vis_str (snd (run pssl_body (alive (pssl_init PS_GOOGLE)) [SSL_SERVER_GOOGLE ++ [7]; [8; 9]])) =
   [OByte 7; OByte 8; OByte 9].
-Proof. vm_compute. split; reflexivity. Qed.
+Proof. vm_compute. reflexivity. Qed.
 
 (** * (2) SOCKS5 *)
 
-Theorem C17_seg_independent_socks5_except_short_read : forall G user pass addr cs,
+(** segmentation independence for every stream and every chunking (each reply is collected across reads) *)
+Theorem C17_seg_independent_socks5 : forall user pass addr cs,
   let w0 := alive (socks_init user pass addr) in
-  no_short_handshake_read (snd (run (socks_body G) w0 cs)) ->
-  weq (fst (run (socks_body G) w0 cs)) (fst (feed (socks_body G) w0 (concat cs))) /\
-  vis vis_str (snd (run (socks_body G) w0 cs)) = vis vis_str (snd (feed (socks_body G) w0 (concat cs))).
-Proof. intros G user pass addr cs. apply socks_seg_independent_except. apply sinv_init. Qed.
+  weq (fst (run socks_body w0 cs)) (fst (feed socks_body w0 (concat cs))) /\
+  vis vis_str (snd (run socks_body w0 cs)) = vis vis_str (snd (feed socks_body w0 (concat cs))).
+Proof. intros user pass addr cs. apply socks_seg_independent. apply sinv_init. Qed.
 
-(** the connect reply split between its 4-byte head and the bound address fails the handshake;
-    delivered in one piece the same bytes open the tunnel and the two bytes that follow are delivered *)
-Theorem C17_seg_independent_socks5_refuted : exists G user pass addr cs,
-  vis vis_str (snd (run (socks_body G) (alive (socks_init user pass addr)) cs)) <>
-  vis vis_str (snd (feed (socks_body G) (alive (socks_init user pass addr)) (concat cs))).
-Proof.
-  exists 170, None, None, [1; 2; 3; 4; 31; 144], [[5; 0]; [5; 0; 0; 1]; [127; 0; 0; 1; 31; 144]; [9; 9]].
-  vm_compute. discriminate.
-Qed.
-
-(** a partially received bound address is accepted; its remainder is then delivered as tunnelled data *)
-Theorem C17_socks5_partial_tail_leaks_into_tunnel :
-  vis vis_str (snd (run (socks_body 170) (alive (socks_init None None [1; 2; 3; 4; 31; 144]))
+(** regression (9934485): the connect reply split between its 4-byte head and the bound address opens the
+    tunnel, and a partially received bound address no longer leaks into the tunnel *)
+Example C17_socks5_split_reply_regression :
+  vis vis_str (snd (run socks_body (alive (socks_init None None [1; 2; 3; 4; 31; 144]))
+                        [[5; 0]; [5; 0; 0; 1]; [127; 0; 0; 1; 31; 144]; [9; 9]])) =
+  [ODn [5; 1; 0; 1; 1; 2; 3; 4; 31; 144]; OByte 9; OByte 9] /\
+  vis vis_str (snd (run socks_body (alive (socks_init None None [1; 2; 3; 4; 31; 144]))
                         [[5; 0]; [5; 0; 0; 1; 127; 0]; [0; 1; 31; 144; 9; 9]])) =
-  [ODn [5; 1; 0; 1; 1; 2; 3; 4; 31; 144]; OByte 0; OByte 1; OByte 31; OByte 144; OByte 9; OByte 9].
-Proof. vm_compute. reflexivity. Qed.
+  [ODn [5; 1; 0; 1; 1; 2; 3; 4; 31; 144]; OByte 9; OByte 9].
+Proof. vm_compute. split; reflexivity. Qed.
 
-Theorem C17_tunnel_transparent_socks5 : forall G s cs rel bufs, s_state s = SK_CONNECTED -> s_base s = true ->
-  fst (run (socks_body G) (alive s) cs) = alive s /\
-  vis vis_str (snd (run (socks_body G) (alive s) cs)) = map OByte (concat cs) /\
+Theorem C17_tunnel_transparent_socks5 : forall s cs rel bufs, s_state s = SK_CONNECTED -> s_base s = true ->
+  fst (run socks_body (alive s) cs) = alive s /\
+  vis vis_str (snd (run socks_body (alive s) cs)) = map OByte (concat cs) /\
   socks_send s rel bufs = (s, [Dn (concat bufs); Snd 1]).
 Proof.
-  intros G s cs rel bufs H B. destruct (socks_tunnel_transparent G s cs H B). repeat split; auto.
+  intros s cs rel bufs H B. destruct (socks_tunnel_transparent s cs H B). repeat split; auto.
   exact (socks_send_transparent s rel bufs H B).
 Qed.
 
-Theorem C17_no_fault_socks5 : forall G user pass addr cs,
-  ~ In EFault (snd (run (socks_body G) (alive (socks_init user pass addr)) cs)) /\
-  ~ In ELive (snd (run (socks_body G) (alive (socks_init user pass addr)) cs)).
-Proof. intros G user pass addr cs. apply socks_no_fault. apply sinv_init. Qed.
+Theorem C17_no_fault_socks5 : forall user pass addr cs,
+  ~ In EFault (snd (run socks_body (alive (socks_init user pass addr)) cs)) /\
+  ~ In ELive (snd (run socks_body (alive (socks_init user pass addr)) cs)).
+Proof. intros user pass addr cs. apply socks_no_fault. apply sinv_init. Qed.
 
 Example C17_socks5_nonvacuous :
   let cs := [[5; 2]; [1; 0]; [5; 0; 0; 1; 127; 0; 0; 1; 31; 144; 9]; [8; 7]] in
-  let r := run (socks_body 170) (alive (socks_init (Some [117]) (Some [112]) [1; 2; 3; 4; 31; 144])) cs in
-  no_short_handshake_read (snd r) /\
+  let r := run socks_body (alive (socks_init (Some [117]) (Some [112]) [1; 2; 3; 4; 31; 144])) cs in
   vis vis_str (snd r) = [ODn [1; 1; 117; 1; 112]; ODn [5; 1; 0; 1; 1; 2; 3; 4; 31; 144]; OByte 9; OByte 8; OByte 7].
-Proof. vm_compute. split; reflexivity. Qed.
+Proof. vm_compute. reflexivity. Qed.
 
 (** * (1) HTTP CONNECT *)
 
@@ -212,68 +182,66 @@ Definition HTTP_CL_HEAD : list Z := [72; 84; 84; 80; 47; 49; 46; 48; 32; 50; 48;
 Definition HTTP_REPLY_CL : list Z := [72; 84; 84; 80; 47; 49; 46; 49; 32; 50; 48; 48; 32; 79; 75; 13; 10; 86; 105; 97; 58; 32; 120; 13; 10; 67; 111; 110; 116; 101; 110; 116; 45; 76; 101; 110; 103; 116; 104; 58; 32; 51; 13; 10; 13; 10; 97; 98; 99].
 Definition HTTP_CL_TAIL : list Z := [13; 10; 13; 10; 97; 98; 99].
 
-(** bytes that follow the proxy reply in the same read are lost (handed over with message->length unset) ... *)
-Theorem C17_seg_independent_http_refuted_trailing : exists G cs cs', concat cs = concat cs' /\
-  vis vis_str (snd (run (http_body G) (alive http_init) cs)) <> vis vis_str (snd (run (http_body G) (alive http_init) cs')).
+(** [http_spec q T] is a function of the byte stream alone (the reply parser run over the whole stream as a
+    list; [q] = sends queued before the handshake): what is seen upward and downward, and whether the socket
+    is alive.  The layer is driven with a receive buffer of [UPCAP] = 70000 bytes per call.
+
+    For every stream of at most [UPCAP] bytes, EVERY chunking yields exactly [http_spec] — no side condition
+    on the execution; hence any two chunkings of such a stream agree. *)
+Theorem C17_seg_independent_http : forall G q cs, lenZ (concat cs) <= UPCAP ->
+  vis vis_str (snd (run (http_body G) (alive (http_start q)) cs)) = fst (http_spec q (concat cs)) /\
+  dead (fst (run (http_body G) (alive (http_start q)) cs)) = snd (http_spec q (concat cs)).
+Proof. exact http_seg_independent_small. Qed.
+
+Corollary C17_seg_independent_http_two_chunkings : forall G q cs cs', concat cs = concat cs' ->
+  lenZ (concat cs) <= UPCAP ->
+  vis vis_str (snd (run (http_body G) (alive (http_start q)) cs)) =
+  vis vis_str (snd (run (http_body G) (alive (http_start q)) cs')) /\
+  dead (fst (run (http_body G) (alive (http_start q)) cs)) = dead (fst (run (http_body G) (alive (http_start q)) cs')).
 Proof.
-  exists 190, [HTTP_OK ++ [1; 2]], [HTTP_OK; [1; 2]]. split; [reflexivity|]. vm_compute. discriminate.
+  intros G q cs cs' E C. destruct (http_seg_independent_small G q cs C) as [A B].
+  rewrite E in C. destruct (http_seg_independent_small G q cs' C) as [A' B']. rewrite A, B, A', B', E. split; reflexivity.
 Qed.
 
-(** ... a reply cut right after a Content-Length digit is parsed with a stale ring slot: spurious error ... *)
-Theorem C17_seg_independent_http_refuted_digit : exists G cs cs', concat cs = concat cs' /\
-  vis vis_str (snd (run (http_body G) (alive http_init) cs)) <> vis vis_str (snd (run (http_body G) (alive http_init) cs')).
-Proof.
-  exists 190, [HTTP_CL_HEAD; HTTP_CL_TAIL; [1; 2]], [HTTP_CL_HEAD ++ HTTP_CL_TAIL; [1; 2]].
-  split; [reflexivity|]. vm_compute. discriminate.
-Qed.
-
-(** ... and a header line longer than the free space makes the ring grow while wrapped: the outcome then
-    depends on uninitialised heap bytes (G) *)
-Theorem C17_http_grow_wrapped_reads_uninitialised : exists cs G G',
-  vis vis_str (snd (run (http_body G) (alive http_init) cs)) <> vis vis_str (snd (run (http_body G') (alive http_init) cs)).
-Proof.
-  exists [[72; 84; 84; 80; 47; 49; 46; 48; 32; 50; 48; 48; 32; 79; 75; 13; 10; 88; 45; 76; 111; 110; 103; 58; 32] ++ repZ 113 1100 ++ [13; 10; 13; 10]; [1; 2]], 190, 13.
-  vm_compute. discriminate.
-Qed.
-
-(** Segmentation independence for every delivery that stays off the three defective paths ([clean] = no
-    [Mark]: 1 = the Content-Length digit loop read the slot past recv_buf_fill, 2 = the ring was grown while
-    wrapped, 3 = bytes followed the reply in the same read).  [http_spec q T] is a function of the byte
-    stream alone (the reply parser run over the whole stream as a list; [q] = sends queued before the
-    handshake): what is seen upward and downward, and whether the socket is alive.  Every clean chunking of
-    [T] yields exactly that — hence any two clean chunkings of the same stream agree, in particular a clean
-    chunked delivery and a clean one-chunk delivery. *)
-Theorem C17_seg_independent_http_except_defects : forall G q cs,
+(** For longer streams the same holds for every delivery in which the bytes that follow the proxy reply in
+    the read that completes it fit the caller's buffer ([clean] = no [Mark]; the only [Mark] the model can
+    still emit is 3 = "more than UPCAP bytes were left in the ring at hand-over").  That exception is real in
+    the repaired code: memcpy_ring_buffer_to_input_messages copies what fits, the rest stays in the ring and
+    the connected fast path never looks at the ring again.  It needs a single read of more than 70000 bytes
+    after the reply, hence a ring of at least 128 KiB, hence a header line of more than 64 KiB: reproduced
+    on the real code (notes/C17.md), not as a Coq witness (a 200 KB stream is out of reach of vm_compute). *)
+Theorem C17_seg_independent_http_except_oversize_leftover : forall G q cs,
   clean (snd (run (http_body G) (alive (http_start q)) cs)) = true ->
   vis vis_str (snd (run (http_body G) (alive (http_start q)) cs)) = fst (http_spec q (concat cs)) /\
   dead (fst (run (http_body G) (alive (http_start q)) cs)) = snd (http_spec q (concat cs)).
 Proof. exact http_seg_independent. Qed.
 
-Corollary C17_seg_independent_http_two_chunkings : forall G q cs cs', concat cs = concat cs' ->
-  clean (snd (run (http_body G) (alive (http_start q)) cs)) = true ->
-  clean (snd (run (http_body G) (alive (http_start q)) cs')) = true ->
-  vis vis_str (snd (run (http_body G) (alive (http_start q)) cs)) =
-  vis vis_str (snd (run (http_body G) (alive (http_start q)) cs')) /\
-  dead (fst (run (http_body G) (alive (http_start q)) cs)) = dead (fst (run (http_body G) (alive (http_start q)) cs')).
-Proof.
-  intros G q cs cs' E C C'. destruct (http_seg_independent G q cs C) as [A B].
-  destruct (http_seg_independent G q cs' C') as [A' B']. rewrite A, B, A', B', E. split; reflexivity.
-Qed.
+(** regressions (a4cf846, b519949, bc18d98): bytes following the reply in the same read are delivered; a
+    reply cut right after a Content-Length digit parses; a header line longer than the free space (ring
+    grown while wrapped) gives the same result whatever the uninitialised heap bytes are *)
+Example C17_http_trailing_regression :
+  vis vis_str (snd (run (http_body 190) (alive http_init) [HTTP_OK ++ [1; 2]])) = [OByte 1; OByte 2].
+Proof. vm_compute. reflexivity. Qed.
+Example C17_http_digit_regression :
+  vis vis_str (snd (run (http_body 190) (alive http_init) [HTTP_CL_HEAD; HTTP_CL_TAIL; [1; 2]])) = [OByte 1; OByte 2].
+Proof. vm_compute. reflexivity. Qed.
+Example C17_http_grow_wrapped_regression :
+  let cs := [[72; 84; 84; 80; 47; 49; 46; 48; 32; 50; 48; 48; 32; 79; 75; 13; 10; 88; 45; 76; 111; 110; 103; 58; 32] ++ repZ 113 1100 ++ [13; 10; 13; 10]; [1; 2]] in
+  vis vis_str (snd (run (http_body 190) (alive http_init) cs)) = [OByte 1; OByte 2] /\
+  vis vis_str (snd (run (http_body 13) (alive http_init) cs)) = [OByte 1; OByte 2].
+Proof. vm_compute. split; reflexivity. Qed.
 
-(** the specification is the intended meaning: reply, body skipped, the rest is tunnelled (also the bytes
-    that follow the reply directly — the ones the code loses) *)
+(** the specification is the intended meaning: reply, body skipped, the rest is tunnelled *)
 Example C17_http_spec_example :
   http_spec [[9]] (HTTP_REPLY_CL ++ [1; 2]) = ([ODn [9]; OByte 1; OByte 2], 0) /\
   http_spec [] (HTTP_OK ++ [7]) = ([OByte 7], 0) /\
   snd (http_spec [] [72; 84; 84; 80; 47; 49; 46; 49; 32; 52; 48; 55; 32; 120; 13; 10]) = 1.
 Proof. vm_compute. repeat split; reflexivity. Qed.
 
-(** non-vacuity: a chunked delivery that cuts inside the status line, a header and the body is clean *)
 Example C17_http_seg_nonvacuous :
-  let cs := [takeZ 5 HTTP_REPLY_CL; takeZ 20 (dropZ 5 HTTP_REPLY_CL); dropZ 25 HTTP_REPLY_CL; [1]; [2]] in
-  clean (snd (run (http_body 190) (alive (http_start [[9]])) cs)) = true /\
+  let cs := [takeZ 5 HTTP_REPLY_CL; takeZ 20 (dropZ 5 HTTP_REPLY_CL); dropZ 25 HTTP_REPLY_CL ++ [1]; [2]] in
   vis vis_str (snd (run (http_body 190) (alive (http_start [[9]])) cs)) = [ODn [9]; OByte 1; OByte 2].
-Proof. vm_compute. split; reflexivity. Qed.
+Proof. vm_compute. reflexivity. Qed.
 
 Theorem C17_tunnel_transparent_http : forall G s cs rel bufs, h_state s = HT_CONNECTED -> h_base s = true ->
   fst (run (http_body G) (alive s) cs) = alive s /\
@@ -290,8 +258,3 @@ Theorem C17_no_fault_http : forall G cs,
   ~ In EFault (snd (run (http_body G) (alive http_init) cs)) /\
   ~ In ELive (snd (run (http_body G) (alive http_init) cs)).
 Proof. exact http_no_fault. Qed.
-
-Example C17_http_nonvacuous :
-  vis vis_str (snd (run (http_body 190) (alive http_init) [takeZ 9 HTTP_OK; dropZ 9 HTTP_OK; [1; 2]; [3]])) =
-  [OByte 1; OByte 2; OByte 3].
-Proof. vm_compute. reflexivity. Qed.
